@@ -309,6 +309,22 @@ fn c19_distance_panics_other_game() {
     let _ = a.distance(&b, 1.0);
 }
 
+/// C19.K.distance.panics: profiles of two different games panic also when player one has NO
+/// multi-action infoset in either game (two distinct games must never compare equal).
+#[kani::proof]
+#[kani::unwind(5)]
+#[kani::should_panic]
+#[kani::stub(f64::powf, powf_model)]
+#[kani::stub(std::fmt::format, lib_fmt_stub)]
+fn c19_distance_panics_other_game_empty() {
+    let g = game(&[], &[2], &[]);
+    let g2 = game(&[], &[2], &[]);
+    let r = [any_prob(), any_prob()];
+    let a = Strategies { game: &g, probs: [Box::new([]), Box::new(r)] };
+    let b = Strategies { game: &g2, probs: [Box::new([]), Box::new(r)] };
+    let _ = a.distance(&b, 1.0);
+}
+
 /// C19.K.distance.panics: a non-positive (or NaN) exponent panics.
 #[kani::proof]
 #[kani::unwind(5)]
